@@ -782,3 +782,384 @@ Proof.
   - intros Hlab. apply Hstrict; [unfold key_le, rkey; lia|]. intros ->. lia.
   - intros Hlab Hab. apply Hstrict; [unfold key_le, rkey; lia|lia].
 Qed.
+
+(** * Permuting a graph *)
+Lemma in_combine_nseq (g : graph) : forall k u s,
+  In (u, s) (List.combine (nseq k (length g)) g) <->
+  k <= u /\ u < k + nlen g /\ nth (N.to_nat (u - k)) g [] = s.
+Proof.
+  induction g as [|s0 g IH]; intros k u s; cbn [length nseq List.combine].
+  - unfold nlen. cbn. split; [tauto|lia].
+  - cbn [In]. rewrite IH. unfold nlen. cbn [length]. split.
+    + intros [[= <- <-]|(H1 & H2 & H3)].
+      * split; [lia|]. split; [lia|]. replace (k - k) with 0 by lia. reflexivity.
+      * split; [lia|]. split; [lia|].
+        replace (N.to_nat (u - k)) with (S (N.to_nat (u - (k + 1)))) by lia. exact H3.
+    + intros (H1 & H2 & H3). destruct (N.eq_dec u k) as [->|Hne].
+      * left. replace (k - k) with 0 in H3 by lia. cbn in H3. now subst.
+      * right. split; [lia|]. split; [lia|].
+        replace (N.to_nat (u - k)) with (S (N.to_nat (u - (k + 1)))) in H3 by lia. exact H3.
+Qed.
+
+Lemma in_arcs_of g u v : In (u, v) (arcs_of g) <-> u < nlen g /\ has_arc g u v.
+Proof.
+  unfold arcs_of, has_arc. rewrite in_flat_map. split.
+  - intros [[u' s] [Hin Hmap]]. cbn [fst snd] in Hmap. apply in_map_iff in Hmap.
+    destruct Hmap as [v' [[= <- <-] Hv]].
+    apply (in_combine_nseq g 0) in Hin. destruct Hin as (_ & H2 & H3).
+    rewrite N.sub_0_r in H3. subst s. split; [lia|exact Hv].
+  - intros [Hu Hv]. exists (u, nth (N.to_nat u) g []). split.
+    + apply (in_combine_nseq g 0). rewrite N.sub_0_r. split; [lia|]. split; [lia|reflexivity].
+    + cbn [fst snd]. apply in_map. exact Hv.
+Qed.
+
+Lemma has_arc_graph_of_arcs n A x y :
+  has_arc (graph_of_arcs n A) x y <-> x < N.of_nat n /\ In (x, y) A.
+Proof.
+  unfold has_arc, graph_of_arcs.
+  destruct (N.lt_ge_cases x (N.of_nat n)) as [Hx|Hx].
+  - set (f := fun x0 => nsort (map snd (filter (fun p => fst p =? x0) A))).
+    rewrite nth_indep with (d' := f 0) by (rewrite map_length, ids_length; lia).
+    rewrite map_nth. fold (get (ids n) x). rewrite get_ids by exact Hx. unfold f.
+    assert (Hperm : forall l, Permutation (nsort l) l) by (intros l; symmetry; apply NSort.Permuted_sort).
+    split.
+    + intros H. apply (Permutation_in _ (Hperm _)) in H. apply in_map_iff in H.
+      destruct H as [[x' y'] [<- H]]. apply filter_In in H. destruct H as [H1 H2].
+      cbn [fst snd] in *. apply N.eqb_eq in H2. subst. auto.
+    + intros [_ H]. apply (Permutation_in _ (Permutation_sym (Hperm _))).
+      apply in_map_iff. exists (x, y). split; [reflexivity|]. apply filter_In.
+      split; [exact H|]. cbn [fst]. apply N.eqb_refl.
+  - rewrite nth_overflow by (rewrite map_length, ids_length; lia). cbn [In]. split; [tauto|lia].
+Qed.
+
+Lemma graph_ok_arc g u v : graph_ok g -> u < nlen g -> has_arc g u v -> v < nlen g.
+Proof.
+  unfold graph_ok, has_arc. intros Hg Hu Hv. rewrite Forall_forall in Hg.
+  assert (In (nth (N.to_nat u) g []) g) as Hin by (apply nth_In; unfold nlen in Hu; lia).
+  specialize (Hg _ Hin). rewrite Forall_forall in Hg. apply Hg. exact Hv.
+Qed.
+
+Lemma perm_get_inj p u v :
+  is_perm p -> u < nlen p -> v < nlen p -> get p u = get p v -> u = v.
+Proof.
+  intros Hp Hu Hv H. unfold get in H. unfold nlen in *.
+  assert (N.to_nat u = N.to_nat v); [|lia].
+  apply (proj1 (NoDup_nth p 0) (is_perm_nodup p Hp)); [lia|lia|exact H].
+Qed.
+
+Lemma has_arc_permute pi g x y :
+  has_arc (permute_graph pi g) x y <->
+  x < nlen g /\ exists u v, u < nlen g /\ has_arc g u v /\ x = get pi u /\ y = get pi v.
+Proof.
+  unfold permute_graph. rewrite has_arc_graph_of_arcs. unfold permute_arcs. rewrite in_map_iff.
+  split.
+  - intros [Hx [[u v] [[= <- <-] Hin]]]. apply in_arcs_of in Hin. cbn [fst snd] in *.
+    split; [exact Hx|]. exists u, v. tauto.
+  - intros [Hx (u & v & Hu & Huv & -> & ->)]. split; [exact Hx|].
+    exists (u, v). split; [reflexivity|]. apply in_arcs_of. tauto.
+Qed.
+
+Theorem permuted_isomorphic : S_permuted_isomorphic.
+Proof.
+  intros pi g Hpi Hlen Hg h.
+  assert (Hnl : nlen pi = nlen g) by (unfold nlen; now rewrite Hlen).
+  split; [unfold h, permute_graph, graph_of_arcs; now rewrite map_length, ids_length|].
+  split.
+  - intros u v Hu Hv. unfold h. rewrite has_arc_permute. split.
+    + intros [_ (u' & v' & Hu' & Huv' & E1 & E2)].
+      assert (Hv' : v' < nlen g) by (eapply graph_ok_arc; eassumption).
+      apply perm_get_inj in E1; [|exact Hpi|lia|lia].
+      apply perm_get_inj in E2; [|exact Hpi|lia|lia]. subst. exact Huv'.
+    + intros Huv. split.
+      * rewrite <- Hnl. apply is_perm_lt; [exact Hpi|]. apply get_in. lia.
+      * exists u, v. tauto.
+  - intros x y Hxy. unfold h in Hxy. apply has_arc_permute in Hxy.
+    destruct Hxy as [_ (u & v & Hu & Huv & -> & ->)]. exists u, v.
+    split; [exact Hu|]. split; [eapply graph_ok_arc; eassumption|]. tauto.
+Qed.
+
+Theorem llp_order_isomorphic : S_llp_order_isomorphic.
+Proof.
+  intros labels g Hlen Hg pi h.
+  destruct (ranks_perm labels) as [Hp Hl]. fold pi in Hp, Hl.
+  destruct (permuted_isomorphic pi g Hp ltac:(congruence) Hg) as (H1 & H2 & _).
+  split; [exact Hp|]. split; [exact H1|exact H2].
+Qed.
+
+(** * The update rule *)
+Definition lp_good (n : nat) (st : lp_state) : Prop :=
+  length (lp_labels st) = n /\ Forall (fun l => l < N.of_nat n) (lp_labels st) /\
+  length (lp_volumes st) = n /\
+  forall l, l < N.of_nat n -> get (lp_volumes st) l = ncount l (lp_labels st).
+
+Lemma ncount_nseq l a n :
+  ncount l (nseq a n) = if (a <=? l) && (l <? a + N.of_nat n) then 1 else 0.
+Proof.
+  revert a; induction n; intros a; cbn [nseq ncount].
+  - destruct (N.leb_spec a l), (N.ltb_spec l (a + N.of_nat 0)); cbn; lia.
+  - rewrite IHn.
+    destruct (N.eqb_spec a l), (N.leb_spec a l), (N.leb_spec (a + 1) l),
+      (N.ltb_spec l (a + 1 + N.of_nat n)), (N.ltb_spec l (a + N.of_nat (S n))); cbn; lia.
+Qed.
+
+Lemma get_repeat v n a : a < N.of_nat n -> get (repeat v n) a = v.
+Proof.
+  intros H. unfold get. rewrite nth_indep with (d' := v) by (rewrite repeat_length; lia).
+  apply nth_repeat.
+Qed.
+
+Lemma lp_init_good n : lp_good n (lp_init n).
+Proof.
+  unfold lp_good, lp_init. cbn [lp_labels lp_volumes].
+  split; [apply ids_length|]. split.
+  { apply Forall_forall. intros l Hl. apply In_ids. exact Hl. }
+  split; [apply repeat_length|].
+  intros l Hl. rewrite get_repeat by exact Hl. unfold ids. rewrite ncount_nseq.
+  destruct (N.leb_spec 0 l), (N.ltb_spec l (0 + N.of_nat n)); cbn; lia.
+Qed.
+
+Lemma ncount_set_nth l lab : forall i new,
+  (i < length lab)%nat ->
+  ncount l (set_nth lab i new) + (if nth i lab 0 =? l then 1 else 0) =
+  ncount l lab + (if new =? l then 1 else 0).
+Proof.
+  induction lab as [|x lab IH]; intros i new Hi; cbn [length] in Hi; [lia|].
+  destruct i; cbn [set_nth nth ncount].
+  - lia.
+  - specialize (IH i new ltac:(lia)). lia.
+Qed.
+
+Lemma lp_update_good n st node new :
+  lp_good n st -> node < N.of_nat n -> new < N.of_nat n -> new <> get (lp_labels st) node ->
+  lp_good n (lp_update st node new).
+Proof.
+  intros (Hl & Hall & Hvl & Hv) Hnode Hnew Hne. unfold lp_good, lp_update. cbn [lp_labels lp_volumes].
+  set (old := get (lp_labels st) node) in *.
+  assert (Hold : old < N.of_nat n).
+  { rewrite Forall_forall in Hall. apply Hall. apply get_in. unfold nlen. rewrite Hl. exact Hnode. }
+  split; [rewrite set_length; exact Hl|]. split.
+  { unfold set. apply Forall_set_nth; assumption. }
+  split; [rewrite !set_length; exact Hvl|].
+  intros l Hlt.
+  pose proof (ncount_set_nth l (lp_labels st) (N.to_nat node) new ltac:(lia)) as Hc.
+  fold (set (lp_labels st) node new) in Hc. fold (get (lp_labels st) node) in Hc. fold old in Hc.
+  pose proof (ncount_set_nth old (lp_labels st) (N.to_nat node) new ltac:(lia)) as Hco.
+  fold (set (lp_labels st) node new) in Hco. fold (get (lp_labels st) node) in Hco. fold old in Hco.
+  rewrite N.eqb_refl in Hco.
+  set (v1 := set (lp_volumes st) old (get (lp_volumes st) old - 1)).
+  assert (Hv1len : nlen v1 = N.of_nat n) by (unfold nlen, v1; rewrite set_length; now rewrite Hvl).
+  assert (Hvlen : nlen (lp_volumes st) = N.of_nat n) by (unfold nlen; now rewrite Hvl).
+  destruct (N.eq_dec l new) as [->|Hln].
+  - rewrite get_set_same by lia. unfold v1. rewrite get_set_other by exact (not_eq_sym Hne).
+    rewrite Hv by exact Hnew. rewrite N.eqb_refl in Hc.
+    destruct (N.eqb_spec old new); [congruence|]. lia.
+  - rewrite get_set_other by (intros E; apply Hln; now symmetry).
+    destruct (N.eqb_spec new l); [congruence|].
+    destruct (N.eq_dec l old) as [->|Hlo].
+    + unfold v1. rewrite get_set_same by lia. rewrite Hv by exact Hold.
+      rewrite N.eqb_refl in Hc. lia.
+    + unfold v1. rewrite get_set_other by (intros E; apply Hlo; now symmetry).
+      rewrite Hv by exact Hlt. destruct (N.eqb_spec old l); [congruence|]. lia.
+Qed.
+
+Lemma lp_step_good g hist e :
+  hist <> [] -> Forall (lp_good (length g)) hist ->
+  lp_step g hist e <> [] /\ Forall (lp_good (length g)) (lp_step g hist e).
+Proof.
+  intros Hne Hall. destruct e as [[node src] age]. unfold lp_step.
+  destruct hist as [|cur hist']; [congruence|].
+  destruct (lp_legal g node src) eqn:Eleg; [|split; [discriminate|exact Hall]].
+  set (seen := nth age (cur :: hist') cur).
+  destruct (get (lp_labels seen) src =? get (lp_labels cur) node) eqn:Esame;
+    [split; [discriminate|exact Hall]|].
+  split; [discriminate|]. constructor; [|exact Hall].
+  unfold lp_legal in Eleg. apply andb_true_iff in Eleg. destruct Eleg as [Hnode _].
+  apply N.ltb_lt in Hnode. unfold nlen in Hnode.
+  assert (Hcur : lp_good (length g) cur) by (inversion Hall; assumption).
+  assert (Hseen : lp_good (length g) seen).
+  { rewrite Forall_forall in Hall. apply Hall. unfold seen.
+    destruct (nth_in_or_default age (cur :: hist') cur) as [H|H]; [exact H|rewrite H; now left]. }
+  apply lp_update_good; [exact Hcur|exact Hnode| |].
+  - destruct Hseen as (_ & Hall' & _). destruct (get_or_default (lp_labels seen) src) as [H|H].
+    + rewrite H. lia.
+    + rewrite Forall_forall in Hall'. apply Hall'. exact H.
+  - apply N.eqb_neq. exact Esame.
+Qed.
+
+Lemma lp_run_good g sched :
+  lp_run g sched <> [] /\ Forall (lp_good (length g)) (lp_run g sched).
+Proof.
+  unfold lp_run.
+  assert (H0 : [lp_init (length g)] <> [] /\ Forall (lp_good (length g)) [lp_init (length g)]).
+  { split; [discriminate|]. constructor; [apply lp_init_good|constructor]. }
+  revert H0. generalize [lp_init (length g)] as hist.
+  induction sched as [|e sched IH]; intros hist [Hne Hall]; cbn [fold_left]; [auto|].
+  apply IH. apply lp_step_good; assumption.
+Qed.
+
+Theorem labels_are_nodes : S_labels_are_nodes.
+Proof.
+  intros g sched st Hin. destruct (lp_run_good g sched) as [_ Hall].
+  rewrite Forall_forall in Hall. destruct (Hall st Hin) as (H1 & H2 & _). split; assumption.
+Qed.
+
+Theorem volumes_count : S_volumes_count.
+Proof.
+  intros g sched st l Hin Hl. destruct (lp_run_good g sched) as [_ Hall].
+  rewrite Forall_forall in Hall. destruct (Hall st Hin) as (_ & _ & _ & H). apply H. exact Hl.
+Qed.
+
+(** * The checkers *)
+Theorem check_lt_spec : S_check_lt.
+Proof.
+  intros n l. unfold check_lt. rewrite forallb_forall, Forall_forall.
+  split; intros H v Hv; specialize (H v Hv); apply N.ltb_lt; exact H.
+Qed.
+
+Lemma existsb_eqb_in x l : existsb (N.eqb x) l = true <-> In x l.
+Proof.
+  rewrite existsb_exists. split.
+  - intros [y [Hy E]]. apply N.eqb_eq in E. now subst.
+  - intros H. exists x. split; [exact H|apply N.eqb_refl].
+Qed.
+
+Theorem check_perm_spec : S_check_perm.
+Proof.
+  intros p. unfold check_perm, is_perm. rewrite forallb_forall. split.
+  - intros H. symmetry. apply NoDup_Permutation_bis; [apply NoDup_ids|rewrite ids_length; lia|].
+    intros i Hi. apply existsb_eqb_in. apply H. exact Hi.
+  - intros H i Hi. apply existsb_eqb_in. eapply Permutation_in; [symmetry; exact H|exact Hi].
+Qed.
+
+Definition lmax (l : list N) : N := fold_right N.max 0 l.
+
+Lemma lmax_ge l v : In v l -> v <= lmax l.
+Proof.
+  induction l as [|x l IH]; [intros []|]. cbn [lmax fold_right]. fold (lmax l).
+  intros [->|H]; [lia|]. specialize (IH H). lia.
+Qed.
+
+Lemma lmax_in l : l <> [] -> In (lmax l) l.
+Proof.
+  induction l as [|x l IH]; [congruence|]. intros _. cbn [lmax fold_right]. fold (lmax l).
+  destruct l as [|y l'].
+  - cbn. left. lia.
+  - destruct (N.max_spec x (lmax (y :: l'))) as [[_ ->]|[_ ->]].
+    + right. apply IH. discriminate.
+    + now left.
+Qed.
+
+Lemma check_dense_closed r :
+  check_dense r = true <-> (forall v, In v r -> v = 0 \/ In (v - 1) r).
+Proof.
+  unfold check_dense. rewrite forallb_forall. split; intros H v Hv; specialize (H v Hv).
+  - apply orb_true_iff in H. destruct H as [H|H]; [left; now apply N.eqb_eq|right; now apply existsb_eqb_in].
+  - apply orb_true_iff. destruct H as [H|H]; [left; now apply N.eqb_eq|right; now apply existsb_eqb_in].
+Qed.
+
+Lemma closed_downward r :
+  (forall v, In v r -> v = 0 \/ In (v - 1) r) -> forall v, In v r -> forall u, u <= v -> In u r.
+Proof.
+  intros H v. induction v as [|v IH] using N.peano_ind; intros Hv u Hu.
+  - assert (u = 0) as -> by lia. exact Hv.
+  - destruct (N.eq_dec u (N.succ v)) as [->|Hne]; [exact Hv|].
+    destruct (H _ Hv) as [H0|H1]; [lia|].
+    replace (N.succ v - 1) with v in H1 by lia. apply IH; [exact H1|lia].
+Qed.
+
+Theorem check_dense_spec : S_check_dense.
+Proof.
+  intros r. rewrite check_dense_closed. split.
+  - intros H. destruct (list_eq_dec N.eq_dec r []) as [->|Hne].
+    + exists 0. intros v. cbn. split; [lia|tauto].
+    + exists (lmax r + 1). intros v. split.
+      * intros Hv. apply (closed_downward r H (lmax r)); [apply lmax_in; exact Hne|lia].
+      * intros Hv. apply lmax_ge in Hv. lia.
+  - intros [k Hk] v Hv. destruct (N.eq_dec v 0) as [->|Hne]; [now left|right].
+    apply Hk. apply Hk in Hv. lia.
+Qed.
+
+Lemma list_eqb_maps (fam : list (list N)) a b :
+  list_eqb (map (fun l => get l a) fam) (map (fun l => get l b) fam) = true <->
+  forall l, In l fam -> get l a = get l b.
+Proof.
+  induction fam as [|l fam IH]; cbn [map list_eqb].
+  - split; [intros _ l []|reflexivity].
+  - rewrite andb_true_iff, N.eqb_eq, IH. split.
+    + intros [H1 H2] l' [<-|Hl']; auto.
+    + intros H. split; [apply H; now left|intros l' Hl'; apply H; now right].
+Qed.
+
+Lemma bool_eqb_iff b1 b2 : Bool.eqb b1 b2 = true <-> (b1 = true <-> b2 = true).
+Proof. destruct b1, b2; cbn; intuition congruence. Qed.
+
+Theorem check_refinement_spec : S_check_refinement.
+Proof.
+  intros r fam. unfold check_refinement, rows. rewrite forallb_forall. split.
+  - intros H a b Ha Hb.
+    set (f := fun a0 => (get r a0, map (fun l => get l a0) fam)) in *.
+    assert (Hfa : In (f a) (map f (ids (length r)))) by (apply in_map, In_ids; exact Ha).
+    assert (Hfb : In (f b) (map f (ids (length r)))) by (apply in_map, In_ids; exact Hb).
+    specialize (H (f a) Hfa). rewrite forallb_forall in H. specialize (H (f b) Hfb).
+    unfold f in H. cbn [fst snd] in H. apply bool_eqb_iff in H.
+    rewrite N.eqb_eq, list_eqb_maps in H. exact H.
+  - intros H x Hx. rewrite forallb_forall. intros y Hy.
+    apply in_map_iff in Hx. destruct Hx as [a [<- Ha]].
+    apply in_map_iff in Hy. destruct Hy as [b [<- Hb]].
+    cbn [fst snd]. apply bool_eqb_iff. rewrite N.eqb_eq, list_eqb_maps.
+    apply H; apply In_ids; assumption.
+Qed.
+
+Theorem check_monotone_spec : S_check_monotone.
+Proof.
+  intros labels ranks. unfold check_monotone. rewrite forallb_forall. split.
+  - intros H a b Ha Hb. specialize (H a ltac:(apply In_ids; exact Ha)).
+    rewrite forallb_forall in H. specialize (H b ltac:(apply In_ids; exact Hb)).
+    cbv zeta in H. split.
+    + intros Hlt. assert (get labels a <? get labels b = true) as E by now apply N.ltb_lt.
+      rewrite E in H. cbn [orb] in H. now apply N.ltb_lt.
+    + intros Heq Hab. assert (get labels a =? get labels b = true) as E1 by now apply N.eqb_eq.
+      assert (a <? b = true) as E2 by now apply N.ltb_lt.
+      rewrite E1, E2, orb_true_r in H. now apply N.ltb_lt.
+  - intros H a Ha. rewrite forallb_forall. intros b Hb. apply In_ids in Ha, Hb.
+    destruct (H a b Ha Hb) as [H1 H2]. cbv zeta.
+    destruct ((get labels a <? get labels b) || ((get labels a =? get labels b) && (a <? b))) eqn:E;
+      [|reflexivity].
+    apply N.ltb_lt. apply orb_true_iff in E. destruct E as [E|E].
+    + apply H1. now apply N.ltb_lt.
+    + apply andb_true_iff in E. destruct E as [E1 E2]. apply H2; [now apply N.eqb_eq|now apply N.ltb_lt].
+Qed.
+
+Theorem check_inverse_spec : S_check_inverse.
+Proof.
+  intros p q. unfold check_inverse. rewrite andb_true_iff, Nat.eqb_eq, forallb_forall.
+  split; intros [Hl H]; (split; [exact Hl|]).
+  - intros i Hi. apply N.eqb_eq. apply H. apply In_ids. exact Hi.
+  - intros i Hi. apply N.eqb_eq. apply H. apply In_ids in Hi. exact Hi.
+Qed.
+
+Lemma has_arcb_spec g u v : has_arcb g u v = true <-> has_arc g u v.
+Proof. unfold has_arcb, has_arc. apply existsb_eqb_in. Qed.
+
+Theorem check_iso_spec : S_check_iso.
+Proof.
+  intros pi g h Hpi Hlen Hg Hc. unfold check_iso in Hc.
+  apply andb_true_iff in Hc. destruct Hc as [Hc H3]. apply andb_true_iff in Hc. destruct Hc as [H1 H2].
+  apply Nat.eqb_eq in H1. rewrite forallb_forall in H2, H3.
+  split; [congruence|]. intros u v Hu Hv.
+  assert (Hnl : nlen pi = nlen g) by (unfold nlen; now rewrite Hlen).
+  assert (Hrep : length (repeat 0 (length pi)) = length pi) by apply repeat_length.
+  destruct (invert_perm pi (ids (length pi)) (repeat 0 (length pi)) Hpi (ids_self_perm _) Hrep)
+    as (_ & _ & _ & Hinv & _).
+  fold (invert_permutation pi) in Hinv.
+  split.
+  - intros Harc.
+    assert (Hin : In (get pi u, get pi v) (arcs_of h)).
+    { apply in_arcs_of. split; [|exact Harc]. unfold nlen. rewrite <- H1. fold (nlen g).
+      rewrite <- Hnl. apply is_perm_lt; [exact Hpi|]. apply get_in. lia. }
+    specialize (H3 _ Hin). cbn [fst snd] in H3. apply has_arcb_spec in H3.
+    destruct (Hinv u ltac:(lia)) as [E1 _]. destruct (Hinv v ltac:(lia)) as [E2 _].
+    rewrite E1, E2 in H3. exact H3.
+  - intros Harc. assert (Hin : In (u, v) (arcs_of g)) by (apply in_arcs_of; tauto).
+    specialize (H2 _ Hin). cbn [fst snd] in H2. apply has_arcb_spec in H2. exact H2.
+Qed.
